@@ -50,7 +50,9 @@ def generate(ctx):
         else:
             d.update(trainer=tr.TRAINERS[(i // len(KINDS)) % len(tr.TRAINERS)], conn=rng.choice(["dense", "direct", "lateral", "conv"]),
                      delay=rng.choice([None, 2, 2]), T=rng.randint(5, 10), signs=rng.randrange(4), trace_mode=rng.choice(["cumulative", "nearest"]),
-                     delayed=rng.random() < 0.6)
+                     delayed=rng.random() < 0.6,
+                     # the sum reduction (and every hyper-parameter) given for the cell only; the trainer-wide defaults differ
+                     per_cell=rng.random() < 0.5)
             d["dtype"] = "float32"
         yield d
     # delay-aware training on every connection type (the trainer reads per-synapse delayed presynaptic histories per sample)
@@ -59,7 +61,7 @@ def generate(ctx):
             yield {"kind": "trainer", "B": rng.randint(2, 4), "dt": rng.choice([1.0, 0.5]), "T": rng.randint(6, 10),
                    "seed": rng.randrange(1 << 30), "dtype": "float32", "resize_from": None, "warm": 0, "clear_at": None,
                    "trainer": tname, "conn": conn, "delay": 2, "delayed": True, "signs": rng.randrange(4),
-                   "trace_mode": rng.choice(["cumulative", "nearest"])}
+                   "trace_mode": rng.choice(["cumulative", "nearest"]), "per_cell": rng.random() < 0.5}
 
 
 def _np(t):
@@ -288,9 +290,11 @@ def _trainer(ctx, desc):
     hyper = {"lr_a": a, "lr_b": b, "trace_mode": desc.get("trace_mode", "cumulative"),
              "delayed": bool(desc.get("delayed")) and bool(desc["delay"])}      # the delay-aware mode of the trainers that have one
     hb = tr.Harness(desc["trainer"], desc["conn"], dt=desc["dt"], B=B, delay_steps=desc["delay"], seed=desc["seed"],
-                    batch_reduction=torch.sum, hyper=hyper)
+                    batch_reduction=torch.sum, hyper=hyper, per_cell=bool(desc.get("per_cell")))
     hs = [tr.Harness(desc["trainer"], desc["conn"], dt=desc["dt"], B=1, delay_steps=desc["delay"], seed=desc["seed"],
-                     batch_reduction=torch.sum, hyper=hyper) for _ in range(B)]
+                     batch_reduction=torch.sum, hyper=hyper, per_cell=bool(desc.get("per_cell"))) for _ in range(B)]
+    if desc.get("per_cell"):
+        ctx.count("trainer_cases_with_cell_level_reduction")
     for h in hs:
         fac.copy_params(hb.conn, h.conn)
     for t in range(desc["T"]):
